@@ -203,7 +203,8 @@ set_option linter.unusedSimpArgs false
 theorem C11_arr_negative_extent_new (s : State) (k : Nat) (dbl : Bool) (seed : Int) (dims : List Int)
     (hr : dims.length = 1 ∨ dims.length = 2) (h : NegFirst dims) :
     step s (.new k dbl seed dims) = (s, .error .invalid_dimension) := by
-  simp [step, hr, newArr, resizeLoop_neg dims h, commit]
+  have hr' : 1 ≤ dims.length ∧ dims.length ≤ 4 := by omega
+  simp [step, hr', newArr, resizeLoop_neg dims h, commit]
 
 /-- `resize` with a negative extent raises `invalid_dimension` and leaves the array intact (its old extents *and* its
     old data): the integer form validates every extent, the `ExpressionSize` / `resize_row_major` /
@@ -486,14 +487,430 @@ theorem C11_arr_no_wild_access :
   · simp only [hin] at h
     cases b <;> simp at h
 
-/-- Usable after.  Run any history of array operations from any pool; remove every operation that failed and left the
-    pool as it was.  The shortened history ends in the same pool and every remaining operation shows exactly what it
-    showed in the full history.  And every failing operation other than `<<` *is* such an operation: it handed back the
-    pool it was given (a failing `<<` keeps what it had written: the documented partial effect). -/
+/-- Usable after.  Run any history of array operations (all kinds: passive arrays of rank 1–4, FixedArray / SymmMatrix /
+    TridiagMatrix objects, active arrays inside a recording) from any pool; remove every operation that failed and left
+    the pool as it was.  The shortened history ends in the same pool and every remaining operation shows exactly what it
+    showed in the full history.  And every failing operation other than `<<` and `where(m) = either_or(c, d)` *is* such an
+    operation: it handed back the pool it was given (a failing `<<` keeps what it had written: the documented partial
+    effect; `either_or` is two conditional assignments, the first of which stays when the second is refused:
+    `C11_arr_eor_mismatch`). -/
 theorem C11_arr_usable_after (s : State) (ops : List Op) :
     run s (dropFailed s ops) = runKept s ops ∧ (runKept s ops).1 = (run s ops).1 ∧
-    (∀ (s' : State) (o : Op), (step s' o).2.failed = true → (∀ k items, o ≠ .fill k items) → (step s' o).1 = s') :=
-  ⟨run_dropFailed s ops, runKept_state s ops, fun s' o hf hfill => fail_unchanged s' o hf hfill⟩
+    (∀ (s' : State) (o : Op), (step s' o).2.failed = true → (∀ k items, o ≠ .fill k items) →
+      (∀ k m c d, o ≠ .eor k m c d) → (step s' o).1 = s') :=
+  ⟨run_dropFailed s ops, runKept_state s ops, fun s' o hf hfill heor => fail_unchanged s' o hf hfill heor⟩
+
+
+/-! #### ranks 1 – 4, expressions that are not assignments, special targets, active arrays -/
+
+/-- Negative extents for every rank of the model: a passive array of rank 1 … 4 and an active array of rank 1 or 2 cannot
+    be constructed with a negative extent (`invalid_dimension`, pool unchanged), and the `resize` forms of an active
+    array refuse one while leaving the array (values, derivative rows, input status) as it was. -/
+theorem C11_arr_negative_extent_ranks (s : State) (k : Nat) (seed : Int) (dims : List Int) (h : NegFirst dims) :
+    (∀ dbl, 1 ≤ dims.length → dims.length ≤ 4 → step s (.new k dbl seed dims) = (s, .error .invalid_dimension)) ∧
+    (dims.length = 1 ∨ dims.length = 2 → step s (.newA k seed dims) = (s, .error .invalid_dimension)) ∧
+    (∀ t, s.getA? k = some t → dims.length = t.a.rank →
+        step s (.resizedA k seed dims) = (s, .error .invalid_dimension)) ∧
+    (∀ t, s.getA? k = some t → dims.length = t.a.rank → dims.any (· < 0) = true →
+        step s (.resizeA k seed dims) = (s, .error .invalid_dimension)) := by
+  refine ⟨?_, ?_, ?_, ?_⟩
+  · intro dbl h1 h4
+    have hr : 1 ≤ dims.length ∧ dims.length ≤ 4 := ⟨h1, h4⟩
+    simp [step, hr, newArr, resizeLoop_neg dims h, commit]
+  · intro hr
+    show step2 s (.newA k seed dims) = _
+    simp [step2, hr, newArr, resizeLoop_neg dims h]
+  · intro t hk hr
+    show step2 s (.resizedA k seed dims) = _
+    simp [step2, hk, hr, resizeDims, resizeLoop_neg dims h]
+  · intro t hk hr hneg
+    show step2 s (.resizeA k seed dims) = _
+    simp [step2, hk, hr, resizeInt, hneg]
+
+/-- A reduction — `sum`, `mean`, `product`, `minval`, `maxval`, `norm2` of `x op y`, `all`, `any`, `count` of `x > y` — whose
+    operands have different extents raises `size_mismatch`: over the whole expression for every rank, along a dimension for
+    every rank above 1 and *every* value of the dimension argument (the size test comes first), and for rank 1 with the
+    only admissible dimension argument 0.  Nothing is modified. -/
+theorem C11_arr_reduce_mismatch (s : State) (fn : RedFn) (i j : Nat) (op : BinOp) (x y : Arr)
+    (hi : s.get? i = some x) (hj : s.get? j = some y) (hk : x.sameKind y = true) (hok : redOk fn op x = true)
+    (h : x.dims ≠ y.dims) :
+    step s (.red fn i op j) = (s, .error .size_mismatch) ∧
+    (x.rank ≠ 1 → ∀ dim, step s (.redd fn i op j dim) = (s, .error .size_mismatch)) ∧
+    (x.rank = 1 → fn.isBool = false → step s (.redd fn i op j 0) = (s, .error .size_mismatch)) := by
+  refine ⟨?_, ?_, ?_⟩
+  · show step2 s (.red fn i op j) = _
+    simp [step2, hi, hj, hk, hok, exprDims, h, reduceWhole]
+  · intro hr dim
+    show step2 s (.redd fn i op j dim) = _
+    have hb : (fn.isBool && x.rank == 1) = false := by simp [hr]
+    simp [step2, hi, hj, hk, hok, hb, exprDims, h, reduceDim, hr, redRes]
+  · intro hr hb
+    show step2 s (.redd fn i op j 0) = _
+    simp [step2, hi, hj, hk, hok, hb, exprDims, h, reduceDim, hr, reduceWhole, redRes]
+
+/-- The dimension argument of a reduction along a dimension.  Rank 1: any argument other than 0 raises
+    `invalid_dimension` (whatever the operands).  Rank above 1, consistent non-empty operands: an argument outside
+    `0 … rank−1` — negative as well as too large — raises `invalid_dimension`.  Nothing is modified.  (For a negative
+    argument the pinned tree overruns a stack buffer instead: reported by the check as a finding.) -/
+theorem C11_arr_reduce_dim_invalid (s : State) (fn : RedFn) (i j : Nat) (op : BinOp) (x y : Arr) (dim : Int)
+    (hi : s.get? i = some x) (hj : s.get? j = some y) (hk : x.sameKind y = true) (hok : redOk fn op x = true) :
+    (x.rank = 1 → fn.isBool = false → dim ≠ 0 → step s (.redd fn i op j dim) = (s, .error .invalid_dimension)) ∧
+    (x.rank ≠ 1 → x.dims = y.dims → x.isEmpty = false → (dim < 0 ∨ dim ≥ (x.rank : Int)) →
+        step s (.redd fn i op j dim) = (s, .error .invalid_dimension)) := by
+  constructor
+  · intro hr hb hd
+    show step2 s (.redd fn i op j dim) = _
+    simp [step2, hi, hj, hk, hok, hb, reduceDim, hr, hd, redRes]
+  · intro hr hxy hne hdim
+    show step2 s (.redd fn i op j dim) = _
+    have hb : (fn.isBool && x.rank == 1) = false := by simp [hr]
+    have hne' : ¬ y.dims.head?.getD 0 = 0 := by rw [← hxy]; simpa [Arr.isEmpty] using hne
+    have hdim' : dim < 0 ∨ (x.rank : Int) ≤ dim := hdim
+    simp [step2, hi, hj, hk, hok, hb, exprDims, hxy, reduceDim, hr, redRes, hne', hdim']
+
+/-- What the code does with EMPTY operands (the manual is silent): every whole-array reduction of a valid empty expression
+    is 0 — also `all`, `minval`, `maxval` —, a reduction along a dimension is the empty array *whatever* the dimension
+    argument (the emptiness test precedes the range test), and `minloc` / `maxloc` answer 0.  No exception, nothing read. -/
+theorem C11_arr_reduce_empty (fn : RedFn) (x y : Arr) (op : BinOp) (hxy : x.dims = y.dims) (he : x.isEmpty = true) :
+    reduceWhole fn (exprDims x y) (redVals fn op x y) = .ok (.int 0) ∧
+    (x.rank ≠ 1 → ∀ dim, reduceDim fn x.rank (exprDims x y) (redVals fn op x y) dim = .ok (.arr (List.replicate (x.rank - 1) 0) [])) ∧
+    (x.vals = [] → ∀ isMin, locOp isMin (exprDims x y) (exprVals op x y) = .ok 0) := by
+  have he' : y.dims.head?.getD 0 = 0 := by rw [← hxy]; simpa [Arr.isEmpty] using he
+  refine ⟨?_, ?_, ?_⟩
+  · simp [reduceWhole, exprDims, hxy, he']
+  · intro hr dim
+    simp [reduceDim, hr, exprDims, hxy, he']
+  · intro hv isMin
+    simp [locOp, exprDims, hxy, locList, exprVals, hv]
+
+/-- `minloc`, `maxloc`, `find` and `dot_product` applied to vectors of different lengths raise `size_mismatch` (for
+    `dot_product` also when one of the two is empty); nothing is modified. -/
+theorem C11_arr_loc_mismatch (s : State) (i j : Nat) (x y : Arr) (hi : s.get? i = some x) (hj : s.get? j = some y)
+    (hk : (x.sameKind y && x.rank == 1) = true) (h : x.dims ≠ y.dims) :
+    (∀ isMin op, step s (.loc isMin i op j) = (s, .error .size_mismatch)) ∧
+    step s (.find i j) = (s, .error .size_mismatch) ∧ step s (.dot i j) = (s, .error .size_mismatch) := by
+  refine ⟨?_, ?_, ?_⟩
+  · intro isMin op
+    show step2 s (.loc isMin i op j) = _
+    simp [step2, hi, hj, hk, exprDims, h, locOp]
+  · show step2 s (.find i j) = _
+    simp [step2, hi, hj, hk, findOp, h, viewRes]
+  · show step2 s (.dot i j) = _
+    simp [step2, hi, hj, hk, dotOp, exprDims, h, reduceWhole]
+
+/-- `outer_product(x + y, z)`, `spread<D>(x + y, n)`, `diag_vector(x + y, o)` and `diag_matrix(x + y)` whose inner operands
+    disagree raise `size_mismatch`, whatever the target; so does an outer product with an empty factor (an outer product
+    without elements is an invalid expression in the code; the manual names no class for it). -/
+theorem C11_arr_expand_mismatch (t x y z : Arr) (D : Nat) (n o : Int) :
+    (x.dims ≠ y.dims → outerOp t x y z = .error .size_mismatch ∧ spreadOp t x y D n = .error .size_mismatch ∧
+        diagvOp x y o = .error .size_mismatch ∧ diagmOp x y = .error .size_mismatch) ∧
+    (x.dims = y.dims → (x.isEmpty = true ∨ z.isEmpty = true) → outerOp t x y z = .error .size_mismatch) := by
+  constructor
+  · intro h
+    simp [outerOp, spreadOp, diagvOp, diagmOp, h]
+  · intro hxy he
+    have : (x.isEmpty || z.isEmpty) = true := by
+      cases he with
+      | inl h => simp [h]
+      | inr h => simp [h]
+    simp [outerOp, hxy, this]
+
+/-- `T = spread<D>(x + y, n)` with consistent operands: a non-empty target of other extents raises `size_mismatch`; an
+    empty target is resized to the extents of the expression, and a negative `n` (not preceded by a zero extent) is
+    refused by that resize with `invalid_dimension`.  The target is not touched. -/
+theorem C11_arr_spread_target (t x y : Arr) (D : Nat) (n : Int) (hxy : x.dims = y.dims) :
+    (t.isEmpty = false → spreadDims x D n ≠ t.dims.map Int.ofNat → spreadOp t x y D n = .error .size_mismatch) ∧
+    (t.isEmpty = true → NegFirst (spreadDims x D n) → spreadOp t x y D n = .error .invalid_dimension) := by
+  constructor
+  · intro hne hd
+    simp [spreadOp, hxy, hne, hd]
+  · intro he hneg
+    simp [spreadOp, hxy, he, resizeLoop_neg _ hneg]
+
+/-- … and at the level of the operations the pool is handed back untouched. -/
+theorem C11_arr_expand_step (s : State) (k i j z D : Nat) (n o : Int) (e : Err) :
+    ((step s (.outer k i j z)).2 = .error e → (step s (.outer k i j z)).1 = s) ∧
+    ((step s (.spread k D i j n)).2 = .error e → (step s (.spread k D i j n)).1 = s) ∧
+    (step s (.diagv i j o)).1 = s ∧ (step s (.diagm i j)).1 = s := by
+  refine ⟨?_, ?_, ?_, ?_⟩
+  · intro h
+    exact step2_safe s _ (by intro _ _ _ _ hh; cases hh) (by show (step2 s _).2.failed = true; rw [show step2 s (.outer k i j z) = step s (.outer k i j z) from rfl, h]; rfl)
+  · intro h
+    exact step2_safe s _ (by intro _ _ _ _ hh; cases hh) (by show (step2 s _).2.failed = true; rw [show step2 s (.spread k D i j n) = step s (.spread k D i j n) from rfl, h]; rfl)
+  · show (step2 s (.diagv i j o)).1 = s
+    simp only [step2]
+    repeat' split
+    all_goals first | rfl | exact viewRes_state _ _
+  · show (step2 s (.diagm i j)).1 = s
+    simp only [step2]
+    repeat' split
+    all_goals first | rfl | exact viewRes_state _ _
+
+/-- `t.where(m1 > m2) = x + y`: a mask whose operands disagree, a mask of other extents than the target, a right-hand side
+    whose operands disagree or of other extents than the target — each raises `size_mismatch`, and the target is unchanged. -/
+theorem C11_arr_wherex_mismatch (s : State) (k m1 m2 i j : Nat) (t a1 a2 x y : Arr)
+    (hk : s.get? k = some t) (h1 : s.get? m1 = some a1) (h2 : s.get? m2 = some a2) (hi : s.get? i = some x)
+    (hj : s.get? j = some y) (hkind : (t.sameKind a1 && t.sameKind a2 && t.sameKind x && t.sameKind y) = true)
+    (h : a1.dims ≠ a2.dims ∨ a1.dims ≠ t.dims ∨ x.dims ≠ y.dims ∨ x.dims ≠ t.dims) :
+    step s (.whrx k m1 m2 i j) = (s, .error .size_mismatch) := by
+  show step2 s (.whrx k m1 m2 i j) = _
+  have hw : whereExpr t a1 a2 x y = .error .size_mismatch := by
+    unfold whereExpr
+    split; · rfl
+    split; · rfl
+    split; · rfl
+    split; · rfl
+    rename_i n1 n2 n3 n4
+    exfalso
+    simp only [bne_iff_ne, ne_eq, Decidable.not_not] at n1 n2 n3 n4
+    rcases h with h | h | h | h <;> contradiction
+  simp only [step2, hk, h1, h2, hi, hj, hkind, if_true, hw, commit]
+
+/-- `t.where(m > 0) = either_or(c, d)`.  A mask of other extents, or a `d` of other extents: `size_mismatch`, nothing
+    changed.  A `c` of other extents while mask and `d` fit: `size_mismatch` as well, but the code has by then performed
+    the first of its two conditional assignments — the target holds `d` where the mask is false, exactly that and nothing
+    else (this partial effect is what the code does; the manual does not mention it). -/
+theorem C11_arr_eor_mismatch (s : State) (k m c d : Nat) (t mk cc dd : Arr)
+    (hk : s.get? k = some t) (hm : s.get? m = some mk) (hc : s.get? c = some cc) (hd : s.get? d = some dd)
+    (hkind : (t.sameKind mk && t.sameKind cc && t.sameKind dd) = true) :
+    (mk.dims ≠ t.dims → step s (.eor k m c d) = (s, .error .size_mismatch)) ∧
+    (mk.dims = t.dims → dd.dims ≠ t.dims → step s (.eor k m c d) = (s, .error .size_mismatch)) ∧
+    (mk.dims = t.dims → dd.dims = t.dims → cc.dims ≠ t.dims → c ≠ k →
+      ∃ t1, condAssign t mk dd false = .ok t1 ∧ t1.dims = t.dims ∧
+        step s (.eor k m c d) = (if t1 = t then s else s.put k t1, .error .size_mismatch)) := by
+  refine ⟨?_, ?_, ?_⟩
+  · intro h
+    show step2 s (.eor k m c d) = _
+    simp [step2, hk, hm, hc, hd, hkind, eitherOr, h]
+  · intro h1 h2
+    show step2 s (.eor k m c d) = _
+    simp [step2, hk, hm, hc, hd, hkind, eitherOr, h1, condAssign, h2]
+  · intro h1 h2 h3 hck
+    have hck' : (c == k) = false := by simpa using hck
+    cases hca : condAssign t mk dd false with
+    | error e =>
+      simp only [condAssign, h2, bne_self_eq_false, Bool.false_eq_true, if_false] at hca
+      split at hca <;> simp at hca
+    | ok t1 =>
+      have hd1 : t1.dims = t.dims := by
+        simp only [condAssign, h2, bne_self_eq_false, Bool.false_eq_true, if_false] at hca
+        split at hca <;> (simp only [Except.ok.injEq] at hca; subst hca; rfl)
+      have h2nd : ∀ mm, condAssign t1 mm cc true = .error .size_mismatch := by
+        intro mm; simp [condAssign, hd1, h3]
+      refine ⟨t1, rfl, hd1, ?_⟩
+      show step2 s (.eor k m c d) = _
+      simp only [step2, hk, hm, hc, hd, hkind, if_true, eitherOr, h1, bne_self_eq_false, Bool.false_eq_true, if_false,
+        hca, hck', h2nd]
+
+/-- `solve(A, b)` with a non-square `A` raises `invalid_operation`; with a square `A` and a right-hand side with another
+    number of rows, `size_mismatch` (vector and matrix right-hand sides). -/
+theorem C11_arr_solve_invalid (a b : Arr) (R C : Nat) (hd : a.dims = [R, C]) :
+    (R ≠ C → solveOp a b = .error .invalid_operation) ∧
+    (R = C → b.dims.getD 0 0 ≠ R → solveOp a b = .error .size_mismatch) := by
+  constructor
+  · intro h; simp [solveOp, hd, h]
+  · intro h hb
+    subst h
+    have : ¬ R = b.dims[0]?.getD 0 := fun e => hb (by simpa using e.symm)
+    simp [solveOp, hd, this]
+
+/-- SymmMatrix / TridiagMatrix: a negative extent and the two-extent form with different extents are refused with
+    `invalid_dimension` by the constructors and by `resize`, before the old data is released: the pool is unchanged. -/
+theorem C11_arr_special_resize (s : State) (k : Nat) (seed : Int) (dims : List Int) (c : SCls) (hc : c ≠ .fix)
+    (h : (∃ n, dims = [n] ∧ n < 0) ∨ (∃ n m, dims = [n, m] ∧ (n ≠ m ∨ n < 0))) :
+    squareExtent dims = .error .invalid_dimension ∧
+    step s (.newS k c seed dims) = (s, .error .invalid_dimension) ∧
+    (∀ t, s.getS? k = some t → t.cls ≠ .fix → step s (.resizeS k seed dims) = (s, .error .invalid_dimension)) := by
+  have hs : squareExtent dims = .error .invalid_dimension := by
+    rcases h with ⟨n, rfl, hn⟩ | ⟨n, m, rfl, hnm⟩
+    · simp [squareExtent, hn]
+    · by_cases e : n = m
+      · subst e
+        have : n < 0 := by
+          rcases hnm with h | h
+          · exact absurd rfl h
+          · exact h
+        simp [squareExtent, this]
+      · simp [squareExtent, e]
+  have hl : dims.length = 1 ∨ dims.length = 2 := by
+    rcases h with ⟨n, rfl, _⟩ | ⟨n, m, rfl, _⟩ <;> simp
+  refine ⟨hs, ?_, ?_⟩
+  · show step2 s (.newS k c seed dims) = _
+    cases c with
+    | fix => exact absurd rfl hc
+    | sym => simp [step2, hl, hs]
+    | tri => simp [step2, hl, hs]
+  · intro t hk ht
+    show step2 s (.resizeS k seed dims) = _
+    have : (t.cls != SCls.fix) = true := by simpa using ht
+    simp [step2, hk, this, hl, hs]
+
+/-- Assignment of an expression to a FixedArray, SymmMatrix or TridiagMatrix: an invalid expression (operands of
+    different extents, also special matrices of different sizes) raises `size_mismatch`; so does a valid expression of
+    other extents than the (non-empty) target; an EMPTY square matrix is resized to the expression and refuses a
+    non-square one with `invalid_dimension`.  The target is not touched. -/
+theorem C11_arr_special_assign_mismatch (t : SArr) (d : List Nat) (vals : List Int) :
+    assignS t none vals = .error .size_mismatch ∧
+    (t.a.isEmpty = false → d ≠ t.a.dims → assignS t (some d) vals = .error .size_mismatch) ∧
+    (t.cls = .fix → d ≠ t.a.dims → assignS t (some d) vals = .error .size_mismatch) ∧
+    (t.cls ≠ .fix → t.a.isEmpty = true → d.getD 0 0 ≠ d.getD 1 0 → assignS t (some d) vals = .error .invalid_dimension) := by
+  refine ⟨rfl, ?_, ?_, ?_⟩
+  · intro hne hd
+    cases hc : t.cls <;> simp [assignS, hc, hne, hd]
+  · intro hc hd
+    simp [assignS, hc, hd]
+  · intro hc he hd
+    have hd' : ¬ d[0]?.getD 0 = d[1]?.getD 0 := by simpa using hd
+    cases hc' : t.cls with
+    | fix => exact absurd hc' hc
+    | sym => simp [assignS, hc', he, hd']
+    | tri => simp [assignS, hc', he, hd']
+
+/-- … at the level of the operations: element-wise expressions whose operands disagree (two arrays, two special matrices
+    of different sizes, a FixedArray next to an array of another size), assigned to a special target or to an array. -/
+theorem C11_arr_special_expr_mismatch (s : State) (k i j : Nat) (op : BinOp) :
+    (∀ t x y, s.getS? k = some t → specOperand s t i = some x → specOperand s t j = some y →
+        (s.get? i).isSome = (s.get? j).isSome → x.dims ≠ y.dims → step s (.asgS k i op j) = (s, .error .size_mismatch)) ∧
+    (∀ t x y, s.get? k = some t → s.getS? i = some x → s.getS? j = some y → x.cls ≠ .fix →
+        (t.dbl && t.rank == 2 && x.cls == y.cls) = true → x.a.dims ≠ y.a.dims →
+        step s (.asgDS k i op j) = (s, .error .size_mismatch)) ∧
+    (∀ t x y, s.get? k = some t → s.getS? i = some x → s.get? j = some y → x.cls = .fix →
+        (t.dbl && y.dbl && t.rank == x.a.rank && y.rank == x.a.rank) = true → x.a.dims ≠ y.dims →
+        step s (.asgDS k i op j) = (s, .error .size_mismatch)) := by
+  refine ⟨?_, ?_, ?_⟩
+  · intro t x y hk hx hy hsame h
+    show step2 s (.asgS k i op j) = _
+    simp [step2, hk, hx, hy, hsame, exprDims, h, assignS, commitS]
+  · intro t x y hk hx hy hc hkind h
+    show step2 s (.asgDS k i op j) = _
+    have : (x.cls == SCls.fix) = false := by simpa using hc
+    simp [step2, hk, hx, hy, this, hkind, exprDims, h, assign, commit]
+  · intro t x y hk hx hy hc hkind h
+    show step2 s (.asgDS k i op j) = _
+    simp [step2, hk, hx, hy, hc, hkind, exprDims, h, assign, commit]
+
+/-- Special objects that need a square or non-empty argument: `diag_vector` / `submatrix_on_diagonal` of the 2 × 3
+    FixedArray raise `invalid_operation`; `submatrix_on_diagonal` of a square special matrix with a range outside it
+    (in particular: any range on an empty one) raises `index_out_of_bounds`; linking to an empty special matrix raises
+    `empty_array`.  Nothing changes. -/
+theorem C11_arr_special_not_square (s : State) (k : Nat) (t : SArr) (hk : s.getS? k = some t) :
+    (t.cls = .fix → t.a.dims = [2, 3] → (∀ o, step s (.diagF k o) = (s, .error .invalid_operation)) ∧
+        ∀ ib ie, step s (.subdiagS k ib ie) = (s, .error .invalid_operation)) ∧
+    (∀ n ib ie, t.a.dims = [n, n] → (ib < 0 ∨ ib > ie ∨ ie ≥ (n : Int)) →
+        step s (.subdiagS k ib ie) = (s, .error .index_out_of_bounds)) ∧
+    (∀ i x, s.getS? i = some x → (t.cls == x.cls && t.cls != .fix) = true → x.a.isEmpty = true →
+        step s (.linkS k i) = (s, .error .empty_array)) := by
+  refine ⟨?_, ?_, ?_⟩
+  · intro hc hd
+    have hr : t.a.rank = 2 := by simp [Arr.rank, hd]
+    have hne : t.a.isEmpty = false := by simp [Arr.isEmpty, hd]
+    constructor
+    · intro o
+      show step2 s (.diagF k o) = _
+      simp [step2, hk, hc, hr, diagVector, hne, hd, viewRes]
+    · intro ib ie
+      show step2 s (.subdiagS k ib ie) = _
+      simp [step2, hk, hr, subDiag, hd, viewRes]
+  · intro n ib ie hd hrange
+    have hr : t.a.rank = 2 := by simp [Arr.rank, hd]
+    show step2 s (.subdiagS k ib ie) = _
+    simp [step2, hk, hr, subDiag, hd, hrange, viewRes]
+  · intro i x hi hkind he
+    show step2 s (.linkS k i) = _
+    simp [step2, hk, hi, hkind, he]
+
+/-- ACTIVE arrays while recording.  An element-wise statement, a compound assignment, a conditional assignment, a
+    whole-array reduction and a reduction along a dimension whose operands have different extents raise `size_mismatch`
+    and hand back the pool *as a whole*: the values, the derivative rows (the model's picture of what is on the recording)
+    and the input status of every active array are those from before the statement. -/
+theorem C11_arr_active_mismatch (s : State) (k i j : Nat) (op : BinOp) (t x y : AArr)
+    (hk : s.getA? k = some t) (hi : s.getA? i = some x) (hj : s.getA? j = some y) (h : x.a.dims ≠ y.a.dims) :
+    ((t.a.sameKind x.a && t.a.sameKind y.a) = true → step s (.asgA k i op j) = (s, .error .size_mismatch)) ∧
+    (∀ fn, (x.a.sameKind y.a && isNumFn fn && op != .sub) = true → step s (.reda k fn i op j) = (s, .error .size_mismatch)) ∧
+    (∀ fn dim, (t.a.rank == 1 && x.a.rank == 2 && y.a.rank == 2 && isIntFn fn && op == .add) = true →
+        step s (.redda k fn i op j dim) = (s, .error .size_mismatch)) ∧
+    (∀ o, (t.a.rank == 1 && x.a.rank == 2 && y.a.rank == 2) = true → step s (.diagva k i j o) = (s, .error .size_mismatch)) := by
+  refine ⟨?_, ?_, ?_, ?_⟩
+  · intro hkind
+    show step2 s (.asgA k i op j) = _
+    simp [step2, hk, hi, hj, hkind, exprDims, h, assignA, assign, commitA]
+  · intro fn hkind
+    show step2 s (.reda k fn i op j) = _
+    simp [step2, hk, hi, hj, hkind, exprDims, h, reduceWholeA]
+  · intro fn dim hkind
+    show step2 s (.redda k fn i op j dim) = _
+    simp [step2, hk, hi, hj, hkind, exprDims, h, reduceDimA]
+  · intro o hkind
+    show step2 s (.diagva k i j o) = _
+    simp [step2, hk, hi, hj, hkind, diagvOp, h]
+
+/-- … assignment of an active array, or of an expression, to a non-empty active array of other extents; a conditional
+    assignment with a mask or a right-hand side of other extents; a reduction along a dimension outside `0, 1`. -/
+theorem C11_arr_active_target_mismatch (s : State) (k i : Nat) (t x : AArr)
+    (hk : s.getA? k = some t) (hi : s.getA? i = some x) (hkind : t.a.sameKind x.a = true) :
+    (t.a.isEmpty = false → x.a.dims ≠ t.a.dims → step s (.cpA k i) = (s, .error .size_mismatch) ∧
+        ∀ op, step s (.compA k op i) = (s, .error .size_mismatch)) ∧
+    (∀ m mk, s.getA? m = some mk → t.a.sameKind mk.a = true → (mk.a.dims ≠ t.a.dims ∨ x.a.dims ≠ t.a.dims) →
+        step s (.whrA k m i) = (s, .error .size_mismatch)) ∧
+    (∀ fn j y dim, s.getA? j = some y → (t.a.rank == 1 && x.a.rank == 2 && y.a.rank == 2 && isIntFn fn) = true →
+        x.a.dims = y.a.dims → x.a.isEmpty = false → (dim < 0 ∨ dim ≥ 2) →
+        step s (.redda k fn i .add j dim) = (s, .error .invalid_dimension)) := by
+  refine ⟨?_, ?_, ?_⟩
+  · intro hne hd
+    constructor
+    · show step2 s (.cpA k i) = _
+      simp [step2, hk, hi, hkind, assignA, assign, hne, hd, commitA]
+    · intro op
+      show step2 s (.compA k op i) = _
+      have hd' : t.a.dims ≠ x.a.dims := fun e => hd e.symm
+      simp [step2, hk, hi, hkind, exprDims, hd', assignA, assign, commitA]
+  · intro m mk hm hkm h
+    show step2 s (.whrA k m i) = _
+    have hw : whereAssign t.a mk.a x.a = .error .size_mismatch := by
+      unfold whereAssign
+      by_cases c1 : mk.a.dims = t.a.dims
+      · have c2 : x.a.dims ≠ t.a.dims := by
+          rcases h with h | h
+          · exact absurd c1 h
+          · exact h
+        simp [c1, c2]
+      · simp [c1]
+    simp [step2, hk, hi, hm, hkind, hkm, whereAssignA, hw, commitA]
+  · intro fn j y dim hj hk2 hxy hne hdim
+    show step2 s (.redda k fn i .add j dim) = _
+    have hne' : ¬ y.a.dims.head?.getD 0 = 0 := by rw [← hxy]; simpa [Arr.isEmpty] using hne
+    have hdim' : dim < 0 ∨ (2 : Int) ≤ dim := hdim
+    simp [step2, hk, hi, hj, hk2, exprDims, hxy, reduceDimA, hne', hdim']
+
+/-- No wild access in the new expression kinds.  (1) Every element a reduction along a dimension reads — the `q`-th
+    element of the `t`-th strip along `dim`, for a valid `dim` and positive extents — has its flat index inside the memory
+    of the operand, for every rank.  (2) So has every element `diag_vector(expression, o)` reads, for every diagonal of an
+    `R × C` expression that exists (non-negative length).  (3) A reduction along a dimension that returns an array was
+    given a dimension argument inside `0 … rank−1` or an empty operand: no strip is ever formed for another argument. -/
+theorem C11_arr_reduce_no_wild_access :
+    (∀ (dims : List Nat) (dim t : Nat), dim < dims.length → (∀ d ∈ dims, 0 < d) → ∀ i ∈ stripIdx dims dim t, i < prod dims) ∧
+    (∀ (R C : Nat) (o : Int) (len : Nat), (len : Int) ≤ diagLen R C o → ∀ i ∈ diagIdx C o len, i < R * C) ∧
+    (∀ (fn : RedFn) (rank : Nat) (d : List Nat) (vals : List Int) (dim : Int) (od : List Nat) (ov : List Num),
+        rank ≠ 1 → reduceDim fn rank (some d) vals dim = .ok (.arr od ov) → d.headD 0 = 0 ∨ (0 ≤ dim ∧ dim < (rank : Int))) := by
+  refine ⟨stripIdx_lt, diagIdx_lt, ?_⟩
+  intro fn rank d vals dim od ov hr h
+  unfold reduceDim at h
+  rw [if_neg hr] at h
+  simp only at h
+  by_cases he : (d.headD 0 == 0) = true
+  · exact Or.inl (by simpa using he)
+  · rw [if_neg he] at h
+    by_cases hd : dim < 0 ∨ dim ≥ (rank : Int)
+    · rw [if_pos hd] at h; cases h
+    · exact Or.inr (by omega)
+
+/-- A failed statement leaves no trace on a later derivative pass: after any failing operation other than `<<` and
+    `either_or`, every Jacobian request (`jac k i`, of the elements of any active array with respect to any input array)
+    answers exactly what it would have answered had the failing operation never been issued. -/
+theorem C11_arr_active_failed_jac (s : State) (o : Op) (hf : (step s o).2.failed = true)
+    (hfill : ∀ k items, o ≠ .fill k items) (heor : ∀ k m c d, o ≠ .eor k m c d) (k i : Nat) :
+    step (step s o).1 (.jac k i) = step s (.jac k i) := by
+  rw [fail_unchanged s o hf hfill heor]
 
 /-! Non-vacuity of the hypotheses. -/
 example : NegFirst [3, -1] := by simp [NegFirst]
@@ -501,5 +918,26 @@ example : ∃ (s : State) (o : Op), dropped s o = true := ⟨{}, .clear 0, by de
 example : ∃ al : Al2, Inv2 2 3 al := ⟨⟨List.replicate 6 0, 0, 0, 0⟩, by simp, by simp, Or.inl rfl, by simp⟩
 example : ∃ (x : Arr), x.isEmpty = false ∧ (Piece.a x).shape.mat = true ∧ (0 : Nat) + (Piece.a x).shape.p > 1 :=
   ⟨⟨true, [2, 2], [1, 2, 3, 4]⟩, by decide, by decide, by decide⟩
+
+/-- a pool with two vectors of different lengths, a matrix, a symmetric matrix and two active vectors -/
+def demoPool : State :=
+  { arrs := [(0, ⟨true, [3], [1, 2, 3]⟩), (1, ⟨true, [4], [1, 2, 3, 4]⟩), (2, ⟨true, [2, 3], [1, 2, 3, 4, 5, 6]⟩),
+             (3, ⟨true, [3, 2], [1, 2, 3, 4, 5, 6]⟩)],
+    specs := [(8, ⟨.sym, ⟨true, [2, 2], [1, 2, 2, 3]⟩⟩), (9, ⟨.fix, ⟨true, [2, 3], [1, 2, 3, 4, 5, 6]⟩⟩)],
+    acts := [(12, { a := ⟨true, [2], [1, 2]⟩, der := [[], []] }), (13, { a := ⟨true, [3], [1, 2, 3]⟩, der := [[], [], []] })] }
+
+example : step demoPool (.red .sum 0 .add 1) = (demoPool, .error .size_mismatch) := by decide
+example : step demoPool (.redd .maxval 2 .mul 3 1) = (demoPool, .error .size_mismatch) := by decide
+example : step demoPool (.redd .sum 2 .add 2 (-1)) = (demoPool, .error .invalid_dimension) := by decide
+example : step demoPool (.redd .sum 2 .add 2 1) = (demoPool, .ok (.nview [2] [.int 12, .int 30])) := by decide
+example : step demoPool (.asgA 12 12 .mul 13) = (demoPool, .error .size_mismatch) := by decide
+example : step demoPool (.asgS 8 2 .add 2) = (demoPool, .error .size_mismatch) := by decide
+example : step demoPool (.diagF 9 0) = (demoPool, .error .invalid_operation) := by decide
+example : step demoPool (.resizeS 8 0 [-1]) = (demoPool, .error .invalid_dimension) := by decide
+example : ∃ (s : State) (o : Op), (step s o).2.failed = true ∧ (∀ k items, o ≠ .fill k items) ∧ (∀ k m c d, o ≠ .eor k m c d) :=
+  ⟨demoPool, .red .sum 0 .add 1, (by decide), (by intro _ _ h; cases h), (by intro _ _ _ _ h; cases h)⟩
+example : NegFirst (spreadDims ⟨true, [3], [1, 2, 3]⟩ 1 (-2)) := by simp [spreadDims, NegFirst]
+example : (2 : Int) ≤ diagLen 2 3 1 := by decide
+example : ∀ d ∈ [2, 3, 4], 0 < d := by decide
 
 end Adept.Misuse
